@@ -8,6 +8,7 @@ import PeroVerif.Drv.C01
 import PeroVerif.Drv.C02
 import PeroVerif.Drv.C04
 import PeroVerif.Drv.C05
+import PeroVerif.Drv.C06
 import PeroVerif.Drv.C07
 import PeroVerif.Drv.C08
 import PeroVerif.Drv.C09
@@ -27,6 +28,7 @@ def dispatch (p : String) : Option Handler :=
   | "C03" => some Drv.C02.handle
   | "C04" => some Drv.C04.handle
   | "C05" => some Drv.C05.handle
+  | "C06" => some Drv.C06.handle
   | "C07" => some Drv.C07.handle
   | "C08" => some Drv.C08.handle
   | "C09" => some Drv.C09.handle
